@@ -385,6 +385,15 @@ def ite(c, a, b):
         return c
     if a == FALSE and b == TRUE:
         return lnot(c)
+    # boolean choices with one constant arm are connectives: `if !p { return false } q` is p && q
+    if b == FALSE:
+        return land(c, a)
+    if a == FALSE:
+        return land(lnot(c), b)
+    if a == TRUE:
+        return lor(c, b)
+    if b == TRUE:
+        return lor(lnot(c), a)
     if c[0] == 'not':
         # boolean negation is exact (also for NaN-false comparisons): ite(!c, a, b) = ite(c, b, a)
         return ite(c[1], b, a)
